@@ -214,6 +214,19 @@ CHECKS["C17"] = (
     "DESIGN.md section 3, C17",
 )
 
+CHECKS["C20"] = (
+    "ENUM",
+    "model_checking",
+    "bounded exhaustive enumeration of closed argument trees x numeric arguments for every bundled semantic predicate; verdicts and replacements recomputed independently",
+    "count on every closed tree of four grammars and each of its closed subtrees as in_tree, for every needle and 0..5 as literal tree and as "
+    "numeric variable; octal_to_decimal on all octal x decimal digit strings up to length 3 in all four argument modes; crop, ljust, rjust, "
+    "ljust_crop, rjust_crop and extend_crop on all 341 (thorough 1365) closed trees of a nullable field nonterminal for widths 0..6 given "
+    "as tree, int and variable and three fill characters. Boolean answers must equal the recomputed relation; every proposed replacement "
+    "must be a closed valid tree of the argument's nonterminal whose string is the str.ljust/rjust/slice result; no call may raise.",
+    "Relations as stated in the check's ASSUMPTIONS (count includes the root; crop holds for len <= width).",
+    "DESIGN.md section 3, C20",
+)
+
 NOT_YET = "check not built yet in this round (planned in DESIGN.md section 3)"
 
 
